@@ -103,6 +103,10 @@ class Base32Decoder:
         try:
             data_dec = _Base32Utils.AddPadding(data)
             if custom_alphabet is not None:
+                # Characters outside the custom alphabet shall not be accepted
+                # (they would be left untouched by the translation and decoded as standard ones)
+                if any(c not in custom_alphabet and c != Base32Const.PADDING_CHAR for c in data_dec):
+                    raise ValueError("Invalid Base32 string")
                 data_dec = _Base32Utils.TranslateAlphabet(data_dec, custom_alphabet, Base32Const.ALPHABET)
 
             return base64.b32decode(data_dec)
